@@ -42,6 +42,27 @@ CLAIMED = {
             "negative-count encodings (all compositions of <=4/6 items exhaustively) that fastavro must decode to the same value, also as a skipped field; every "
             "out-of-range index kind at every position; every proper prefix of encodings <= 200 bytes.",
             "", "§3 C03"),
+    "C04": ("Rocq proof: for every abstract codec with decompress(compress b)=b, every schema, record list, sync interval, marker and metadata the reader returns exactly the written records (writer-state invariant + reader theorem); grouping independence; byte-level correspondence of fastavro.writer/reader incl. I/O traces",
+            "Theorems (coq/props/C04.v): C04_roundtrip (all record lists, any integer sync_interval, any 16-byte marker, any metadata), C04_header, C04_grouping (any two block "
+            "partitions of the same records read identically), C04_sync_interval_irrelevant, C04_append_only. Tie: files written by fastavro.writer for 4 codecs x intervals x "
+            "metadata x raw/parsed schema compared byte for byte with the model's writer (payloads after stdlib decompression), records/END/schema canonical form/codec/metadata "
+            "from fastavro.reader, wrapper streams exposing only read / only write+flush+seekable.",
+            "Section hypotheses: decompress(compress b) = Ok b for zlib/bz2/lzma (stdlib, assumed); block payloads shorter than 2^63 bytes (small_run).", "§3 C04"),
+    "C05": ("Rocq proof: layout equations of header and blocks, the writer's stream is always header ++ well-formed blocks, every header ++ list of well-formed blocks reads back (any partition, empty blocks, header map in any layout), block reader tiling, is_avro iff magic prefix; model as independent parser and independent writer",
+            "Theorems (coq/props/C05.v): C05_block_layout, C05_header_layout, C05_writer_layout, C05_accepts, C05_header_any_layout, C05_tiling, C05_is_avro. Tie: the model parses "
+            "fastavro-written files of all codecs; the model's independent writer produces foreign files (random partitions, empty blocks, chunked/negative-count header map, "
+            "codec key absent, records in multi-block layouts) that fastavro.reader and block_reader must read; 33 Java-written fixtures; is_avro on every single-byte deviation.",
+            "same Section hypotheses as C04; fixtures with snappy / request-type schemas / logical types are skipped.", "§3 C05"),
+    "C06": ("Rocq proof: reading any cut of the block area of any well-formed file yields a prefix of its records and ends normally only at a block boundary; a cut header never parses; an altered marker raises after its block's records; no proper prefix of a schemaless encoding decodes; every offset of every generated file cut on the implementation",
+            "Theorems (coq/props/C06.v): C06_cut_in_header, C06_truncation (every offset m, every list of well-formed blocks), C06_truncation_file, C06_sync (any different 16 bytes, "
+            "whatever follows), C06_schemaless_prefix. Tie: ~9000 (quick) cuts at every offset of files of all 4 codecs evaluated against the statement itself and, for null "
+            "files, against the model's lazy reader; every marker byte altered; every proper prefix of schemaless encodings.",
+            "partial yields out of a block with a corrupt PAYLOAD are not modelled (outside the statement).", "§3 C06"),
+    "C07": ("Rocq proof: invariant by induction over every finite history of {write, failed write, flush, write_block, reopen(new interval)}: stream = header ++ well-formed blocks, pending buffer = pending records, only appends; after any flush the reader returns the submitted records; histories executed on fastavro.write.Writer",
+            "Theorems (coq/props/C07.v): C07_history, C07_every_flush, C07_failed_write_noop, C07_append_only, C07_header_kept. Tie: random histories (<= 40 ops; thorough: all 19607 "
+            "histories of length <= 5 over a 7-op alphabet) incl. donor blocks of every codec and reopen with arbitrary schema/codec/metadata/marker/interval arguments: status "
+            "and stream bytes after every op, records read back after flush.",
+            "reopen is modelled as flush + new Writer whose marker/codec/schema come from the existing header (what _is_appendable + header re-read do on a seekable stream).", "§3 C07"),
     "C16": ("Rocq proof over Z of every logical-type conversion on its whole domain (dates, times, timestamps, uuid, decimal two's complement); correspondence + stdlib-oracle sweeps",
             "Theorems (coq/props/C16.v, 22): date/time/timestamp representations and round trips for every ordinal, every time of day, every instant; two's-complement library; "
             "decimal bytes/fixed exactness and never-altered theorems (for the repaired prepare_fixed_decimal; refuted witnesses for the old code kept as documentation). "
